@@ -35,11 +35,13 @@ Variable bs : N.
 Notation pblock := (process_block hash compress).
 
 (* what the specification remembers besides its output: the blocks consumed so far, the fragment
-   references handed out (inode, index, offset) and the sparse tail ends (inode, block index) *)
+   references handed out (inode, index, offset), the sparse tail ends (inode, block index) and their
+   sizes (inode, number of bytes) *)
 Record obslog := mkLog {
   ol_src : list blk;
   ol_glog : list (N * N * N);
-  ol_sflog : list (N * N)
+  ol_sflog : list (N * N);
+  ol_splog : list (N * N)
 }.
 
 Record sp := mkSp {
@@ -50,16 +52,17 @@ Record sp := mkSp {
   sp_log : obslog
 }.
 
-Definition sp_init (ht0 : HT) : sp := mkSp None ht0 0 [] (mkLog [] [] []).
+Definition sp_init (ht0 : HT) : sp := mkSp None ht0 0 [] (mkLog [] [] [] []).
 
-Definition log_g (l : obslog) (e : N * N * N) : obslog := mkLog (ol_src l) (ol_glog l ++ [e]) (ol_sflog l).
-Definition log_sf (l : obslog) (e : N * N) : obslog := mkLog (ol_src l) (ol_glog l) (ol_sflog l ++ [e]).
-Definition log_src (l : obslog) (d : blk) : obslog := mkLog (ol_src l ++ [d]) (ol_glog l) (ol_sflog l).
+Definition log_g (l : obslog) (e : N * N * N) : obslog := mkLog (ol_src l) (ol_glog l ++ [e]) (ol_sflog l) (ol_splog l).
+Definition log_sf (l : obslog) (e : N * N) (n : N) : obslog :=
+  mkLog (ol_src l) (ol_glog l) (ol_sflog l ++ [e]) (ol_splog l ++ [(fst e, n)]).
+Definition log_src (l : obslog) (d : blk) : obslog := mkLog (ol_src l ++ [d]) (ol_glog l) (ol_sflog l) (ol_splog l).
 
 (* a processed tail end arrives *)
 Definition spec_frag (q : sp) (frag : blk) : sp :=
   if bhas SPARSE frag then
-    mkSp (sp_frag q) (sp_ht q) (sp_nft q) (sp_out q) (log_sf (sp_log q) (b_ino frag, b_idx frag))
+    mkSp (sp_frag q) (sp_ht q) (sp_nft q) (sp_out q) (log_sf (sp_log q) (b_ino frag, b_idx frag) (len (b_data frag)))
   else
     match (if bhas DD frag then None else ht_search (sp_ht q) frag) with
     | Some (idx, off) =>
@@ -155,3 +158,66 @@ Definition ftbl_apply (t : list (N * N)) (w : blk * N) : list (N * N) :=
 
 Definition ftbl_canon (n : N) (ws : list (blk * N)) : list (N * N) :=
   fold_left ftbl_apply ws (repeat (0, 0) (N.to_nat n)).
+
+(* ------------------------------------------------------------------ *)
+(* the scalar fields of an inode, again as functions of the logs and the write log *)
+(* ------------------------------------------------------------------ *)
+(* file_ext.sparse: bytes of the sparse tail ends plus bytes of the sparse blocks written *)
+Definition sp_add (k : N) (a : N) (e : N * N) : N := if k =? fst e then a + snd e else a.
+Definition sp_blk (k : N) (a : N) (b : blk) : N :=
+  if (k =? b_ino b) && bhas SPARSE b then a + len (b_data b) else a.
+
+Definition sparse_canon (splog : list (N * N)) (ws : list blk) (k : N) : N :=
+  fold_left (sp_blk k) ws (fold_left (sp_add k) splog 0).
+
+(* blocks_start: the location returned for the LAST block of the file (0 until then) *)
+Definition st_blk (k : N) (a : N) (w : blk * N) : N :=
+  if (k =? b_ino (fst w)) && bhas LAST (fst w) then snd w else a.
+
+Definition start_canon (ws : list (blk * N)) (k : N) : N := fold_left (st_blk k) ws 0.
+
+(* file_size: the bytes handed to append *)
+Definition sz_ev (k : N) (a : N) (e : ev) : N :=
+  match e with EvSize i n => if k =? i then a + n else a | _ => a end.
+
+Definition size_canon (evs : list ev) (k : N) : N := fold_left (sz_ev k) evs 0.
+
+(* base.type: extended exactly if one of the three fields needs it (inode.c: make_basic refuses) *)
+Definition ext_canon (size sparse start : N) : bool :=
+  (0 <? sparse) || (U32MAX <? size) || (U32MAX <? start).
+
+(* the inode of file k *)
+Definition ino_canon (l : obslog) (ws : list (blk * N)) (evs : list ev) (k : N) : inode :=
+  let sz := size_canon evs k in
+  let spv := sparse_canon (ol_splog l) (map fst ws) k in
+  let stv := start_canon ws k in
+  mkI (ext_canon sz spv stv) sz spv stv (fst (fref_of (ol_glog l) k)) (snd (fref_of (ol_glog l) k))
+      (blocks_canon (ol_sflog l) (map fst ws) k).
+
+(* number of LAST blocks of inode k in a list *)
+Definition isL (k : N) (b : blk) : bool := (k =? b_ino b) && bhas LAST b.
+Definition cntL (k : N) (l : list blk) : nat := length (filter (isL k) l).
+
+Section SpecObs.
+Variable hash : list N -> N.
+Variable compress : list N -> option (list N).
+Variable HT : Type.
+Variable ht_search : HT -> blk -> option (N * N).
+Variable ht_insert : HT -> blk -> N * N -> HT.
+Variable BW : Type.
+Variable bw_write : BW -> blk -> BW * N.
+Variable bs : N.
+
+(* every inode and the fragment table after the run, computed from the file list alone *)
+Definition spec_inodes (ht0 : HT) (bw0 : BW) (files : list file) (k : N) : inode :=
+  match fe_files bs fe_init 0 files with
+  | Ok (_, evs) =>
+    let q := spec_final hash compress HT ht_search ht_insert bs ht0 files in
+    ino_canon (sp_log HT q) (snd (bw_run BW bw_write bw0 [] (sp_out HT q))) evs k
+  | _ => new_inode
+  end.
+
+Definition spec_ftbl (ht0 : HT) (bw0 : BW) (files : list file) : list (N * N) :=
+  let q := spec_final hash compress HT ht_search ht_insert bs ht0 files in
+  ftbl_canon (sp_nft HT q) (snd (bw_run BW bw_write bw0 [] (sp_out HT q))).
+End SpecObs.
